@@ -31,9 +31,19 @@ SG_SIG = dict(ndims=2, node_dtype="uint64", node_attr_dtypes={"pos": "float64[2]
 
 
 # ---------------------------------------------------------------------------------------------------------- call builders
-def ctc_call(k, ov, seg="none", via="api", pre_seg=False):
-    """dataset k: labels 1..k, each present in both of two frames: 2k nodes, k edges"""
-    return {"ep": "ctc", "k": k, "ov": ov, "seg": seg, "via": via, "pre_seg": pre_seg}
+def ctc_call(k, ov, seg="none", via="api", pre_seg=False, spell=None):
+    """dataset k: labels 1..k, each present in both of two frames: 2k nodes, k edges.
+    spell: how the caller writes the target -- None: as it is stored (`<stem>.geff`); "stem": without the suffix; "zarr": with another
+    suffix.  from_ctc_to_geff normalises the suffix to .geff, so all three name the SAME location and every guard must look there."""
+    return {"ep": "ctc", "k": k, "ov": ov, "seg": seg, "via": via, "pre_seg": pre_seg, "spell": spell}
+
+
+def spelled(store, call):
+    sp = call.get("spell")
+    if sp is None or not isinstance(store, (str, Path)) or Path(store).suffix != ".geff":
+        return store
+    q = Path(store).with_suffix("" if sp == "stem" else ".zarr")
+    return str(q) if isinstance(store, str) else q
 
 
 def tm_call(k, ov, ds=False, dt=False, via="api"):
@@ -72,6 +82,12 @@ def generate(rng: random.Random, tier: str):
             yield hist([ctc_call(1, False), ctc_call(2, o1), ctc_call(3, o2)], fmt, block="ctc")
             yield hist([tm_call(1, False), tm_call(2, o1), tm_call(3, o2)], fmt, block="tm")
         yield hist([ctc_call(2, False, via="cli"), ctc_call(1, False, via="cli"), ctc_call(3, True, via="cli")], fmt, block="ctc-cli")
+        # the target spelled without / with another suffix (normalised to .geff by the converter): the guards must look at the
+        # normalised location -- refusal leaves everything (a not yet existing label volume included) untouched, overwrite replaces
+        yield hist([ctc_call(1, False), ctc_call(2, False, spell="stem", seg="outside"), ctc_call(3, True, spell="stem"),
+                    ctc_call(1, False, spell="zarr")], fmt, block="ctc-spelling")
+        yield hist([ctc_call(2, False, spell="zarr"), ctc_call(1, True, spell="stem", seg="outside"), ctc_call(3, False, spell="zarr", via="cli")],
+                   fmt, block="ctc-spelling")
         yield hist([tm_call(2, False, via="cli"), tm_call(1, False, via="cli"), tm_call(3, True, via="cli")], fmt, block="tm-cli")
         # the label volume: outside (fresh / occupied target), inside the geff directory (fresh; over a geff)
         yield hist([ctc_call(1, False, seg="outside"), ctc_call(2, True, seg="outside", pre_seg=True), ctc_call(1, False, seg="outside", pre_seg=True)],
@@ -115,7 +131,8 @@ def generate(rng: random.Random, tier: str):
             ep = rng.choice(["ctc", "tm", "arrays", "dicts", "nxb", "rxb", "sgb", "sg", "nx"])
             kind = rng.choice(["path", "str", "obj"])
             if ep == "ctc":
-                calls.append(ctc_call(rng.randint(1, 3), ov, seg=rng.choice(["none", "none", "outside", "inside"]), via=rng.choice(["api", "api", "cli"])))
+                calls.append(ctc_call(rng.randint(1, 3), ov, seg=rng.choice(["none", "none", "outside", "inside"]), via=rng.choice(["api", "api", "cli"]),
+                                      spell=rng.choice([None, None, "stem", "zarr"])))
             elif ep == "tm":
                 calls.append(tm_call(rng.randint(1, 3), ov, ds=rng.random() < 0.3, dt=rng.random() < 0.3, via=rng.choice(["api", "api", "cli"])))
             elif ep == "arrays":
@@ -296,7 +313,7 @@ def do_call(call, store, fmt, root: Path):
 
             from geff._cli import app
 
-            args = ["convert-ctc", str(ctc), str(store), "--zarr-format", str(fmt)]
+            args = ["convert-ctc", str(ctc), str(spelled(store, call)), "--zarr-format", str(fmt)]
             if seg_arg is not None:
                 args += ["--segm-path", str(seg_arg)]
             if call["ov"]:
@@ -309,7 +326,7 @@ def do_call(call, store, fmt, root: Path):
         else:
             from geff.convert import from_ctc_to_geff
 
-            from_ctc_to_geff(ctc, store, segmentation_store=seg_arg, zarr_format=fmt, **ov)
+            from_ctc_to_geff(ctc, spelled(store, call), segmentation_store=seg_arg, zarr_format=fmt, **ov)
     elif ep == "tm":
         from harness import c16
 
